@@ -24,6 +24,22 @@ Proof.
   apply existsb_exists. exists (n, Unreadable). auto.
 Qed.
 
+Lemma In_remove_one x d l : In x (remove_one d l) -> In x l.
+Proof.
+  induction l as [|y l IH]; cbn; [auto|]. destruct (dfile_eqb d y); [intros H; right; exact H|].
+  intros [H|H]; [left; exact H | right; apply IH, H].
+Qed.
+
+Lemma In_add_debris x d l : In x (add_debris d l) -> x = d \/ In x l.
+Proof.
+  unfold add_debris. destruct d; try (destruct (existsb _ l)); cbn; intros H; try (right; exact H); destruct H as [H|H]; auto.
+Qed.
+
+Lemma In_remove_all x d l : In x (remove_all d l) -> In x l.
+Proof. unfold remove_all. intros H. apply filter_In in H. apply H. Qed.
+
+Definition legacy_intact (ds : list dfile) : Prop := forall h c, In (DColon h c) ds -> c = h.
+
 Section Inv.
   Variable size_of : N -> N.
 
@@ -38,11 +54,15 @@ Section Inv.
   Record Inv (s : store) : Prop := MkInv {
     inv_mans : forall n m, listed s n m -> man_ok s m;
     inv_blobs : blobs_intact s;
-    inv_case : case_unique s
+    inv_case : case_unique s;
+    inv_legacy : legacy_intact (debris s)
   }.
 
   Lemma Inv_empty : Inv empty_store.
   Proof. split; repeat intro; cbv in *; contradiction. Qed.
+
+  Lemma legacy_intact_sub a b : (forall x, In x a -> In x b) -> legacy_intact b -> legacy_intact a.
+  Proof. intros Hs H h c Hin. apply (H h c), Hs, Hin. Qed.
 
   Lemma bget_intact s h c : Inv s -> bget h s = Some c -> c = h.
   Proof. intros HI H. apply (inv_blobs s HI). apply (aget_In N.eqb Neqb_spec). exact H. Qed.
@@ -89,8 +109,9 @@ Section Inv.
   (** ** what one effect may do.  [t]: the one manifest the operation may touch (None: none at all) *)
   Definition step_ok (t : option name) (s : store) (e : effect) : Prop :=
     match e with
-    | EAddDebris _ | ERmDebris _ => True
-    | ERenTemp h c | ERenPartial h c => c = h
+    | EAddDebris (DColon h c) => c = h
+    | EAddDebris _ | ERmDebris _ | EFixPartial _ => True
+    | ERenTemp h c | ERenPartial h c | EFixBlob h c => c = h
     | ERmBlob h => referenced_hex s h = false
     | ETruncMan n | ERmMan n => t = Some n
     | EWriteMan n Unreadable => t = Some n
@@ -104,46 +125,51 @@ Section Inv.
     destruct (N.eq_dec (dhex (ldg l)) h) as [->|Hn]; [apply bget_aset_same | rewrite bget_aset_other by exact Hn; exact H2].
   Qed.
 
-  Lemma Inv_put s h d : Inv s -> Inv (MkStore (mans s) (aset N.eqb h h (blobs s)) d).
+  Lemma Inv_put s h d : Inv s -> legacy_intact d -> Inv (MkStore (mans s) (aset N.eqb h h (blobs s)) d).
   Proof.
-    intros [Hm Hb Hc]. split.
-    - intros n m Hl. specialize (Hm n m Hl). unfold man_ok in *. rewrite Forall_forall in *. intros l Hin. apply blob_ok_put, Hm, Hin.
+    intros [Hm Hb Hc Hl] Hd. split.
+    - intros n m Hl'. specialize (Hm n m Hl'). unfold man_ok in *. rewrite Forall_forall in *. intros l Hin. apply blob_ok_put, Hm, Hin.
     - intros h' c Hin. cbn in Hin. apply (In_aset N.eqb Neqb_spec) in Hin as [[-> ->]|[_ Hin]]; [reflexivity | apply Hb, Hin].
     - exact Hc.
+    - exact Hd.
   Qed.
 
-  Lemma Inv_ext s s' : mans s' = mans s -> blobs s' = blobs s -> Inv s -> Inv s'.
-  Proof. destruct s, s'; cbn. intros -> -> [Hm Hb Hc]. split; assumption. Qed.
+  Lemma Inv_ext s s' : mans s' = mans s -> blobs s' = blobs s -> legacy_intact (debris s') -> Inv s -> Inv s'.
+  Proof. destruct s, s'; cbn. intros -> -> Hd [Hm Hb Hc Hl]. split; assumption. Qed.
 
-  Lemma Inv_mans_shrink s mns d :
-    (forall n m, In (n, Readable m) mns -> In (n, Readable m) (mans s)) -> Inv s -> Inv (MkStore mns (blobs s) d).
+  Lemma Inv_mans_shrink s mns :
+    (forall n m, In (n, Readable m) mns -> In (n, Readable m) (mans s)) -> Inv s -> Inv (MkStore mns (blobs s) (debris s)).
   Proof.
-    intros Hsub [Hm Hb Hc]. split.
-    - intros n m Hl. apply (Hm n m), Hsub, Hl.
+    intros Hsub [Hm Hb Hc Hl]. split.
+    - intros n m Hl'. apply (Hm n m), Hsub, Hl'.
     - exact Hb.
     - intros a b ma mb Ha Hb'. apply (Hc a b ma mb); apply Hsub; assumption.
+    - exact Hl.
   Qed.
 
   Lemma step_inv t s e : Inv s -> step_ok t s e -> Inv (apply_effect s e).
   Proof.
-    intros HI Hs. destruct e as [d|d|h c|h c|h|n|n ms|n]; cbn in *.
-    - eapply Inv_ext; [| |exact HI]; reflexivity.
-    - eapply Inv_ext; [| |exact HI]; reflexivity.
-    - subst c. apply Inv_put, HI.
-    - subst c. apply Inv_put, HI.
-    - destruct HI as [Hm Hb Hc]. split.
-      + intros n m Hl. specialize (Hm n m Hl). unfold man_ok in *. rewrite Forall_forall in *. intros l Hin.
+    intros HI Hs. assert (HL := inv_legacy s HI).
+    destruct e as [d|d|h c|h c|h|n|n ms|n|h c|h]; cbn [apply_effect].
+    - apply (Inv_ext s); [reflexivity | reflexivity | | exact HI]. cbn [debris]. intros h c Hin. apply In_add_debris in Hin as [Hin|Hin]; [|apply (HL h c Hin)].
+      subst d. exact Hs.
+    - apply (Inv_ext s); [reflexivity | reflexivity | | exact HI]. cbn. eapply legacy_intact_sub; [|exact HL]. intros x. apply In_remove_one.
+    - cbn in Hs. subst c. apply Inv_put; [exact HI|]. eapply legacy_intact_sub; [|exact HL]. intros x. apply In_remove_one.
+    - cbn in Hs. subst c. apply Inv_put; [exact HI|]. eapply legacy_intact_sub; [|exact HL]. intros x. apply In_remove_one.
+    - cbn in Hs. destruct HI as [Hm Hb Hc Hl]. split.
+      + intros n m Hl'. specialize (Hm n m Hl'). unfold man_ok in *. rewrite Forall_forall in *. intros l Hin.
         destruct (Hm l Hin) as [H1 [H2 H3]]. split; [exact H1|]. split; [|exact H3].
         unfold bget in *; cbn. rewrite bget_adel_other; [exact H2|].
-        intros He. rewrite <- He in Hs. rewrite (referenced_hex_intro s n m l Hl Hin) in Hs. discriminate.
+        intros He. rewrite <- He in Hs. rewrite (referenced_hex_intro s n m l Hl' Hin) in Hs. discriminate.
       + intros h' c Hin. cbn in Hin. apply (In_adel N.eqb Neqb_spec) in Hin as [Hin _]. apply Hb, Hin.
       + exact Hc.
+      + exact Hl.
     - apply Inv_mans_shrink; [|exact HI]. intros n' m Hin.
       apply (In_aset name_eqb name_eqb_spec) in Hin as [[_ [=]]|[_ Hin]]. exact Hin.
     - destruct ms as [m|].
-      + destruct Hs as [_ [Hok Hu]]. destruct HI as [Hm Hb Hc]. split.
-        * intros n' m' Hl. unfold listed in Hl; cbn in Hl.
-          apply (In_aset name_eqb name_eqb_spec) in Hl as [[-> [= ->]]|[_ Hl]]; [exact Hok | apply (Hm n' m' Hl)].
+      + destruct Hs as [_ [Hok Hu]]. destruct HI as [Hm Hb Hc Hl]. split.
+        * intros n' m' Hl'. unfold listed in Hl'; cbn in Hl'.
+          apply (In_aset name_eqb name_eqb_spec) in Hl' as [[-> [= ->]]|[_ Hl']]; [exact Hok | apply (Hm n' m' Hl')].
         * exact Hb.
         * intros a b ma mb Ha Hb' Hf. unfold listed in Ha, Hb'; cbn in Ha, Hb'.
           apply (In_aset name_eqb name_eqb_spec) in Ha as [[-> [= ->]]|[Hna Ha]];
@@ -152,16 +178,20 @@ Section Inv.
           -- symmetry. apply (Hu b mb Hb'). apply name_eqfold_sym, Hf.
           -- apply (Hu a ma Ha Hf).
           -- apply (Hc a b ma mb Ha Hb' Hf).
+        * exact Hl.
       + apply Inv_mans_shrink; [|exact HI]. intros n' m Hin.
         apply (In_aset name_eqb name_eqb_spec) in Hin as [[_ [=]]|[_ Hin]]. exact Hin.
     - apply Inv_mans_shrink; [|exact HI]. intros n' m Hin.
       apply (In_adel name_eqb name_eqb_spec) in Hin as [Hin _]. exact Hin.
+    - cbn in Hs. subst c. apply Inv_put; [exact HI|]. eapply legacy_intact_sub; [|exact HL]. intros x. apply In_remove_all.
+    - apply (Inv_ext s); [reflexivity | reflexivity | | exact HI]. cbn [debris]. intros h' c Hin. apply In_add_debris in Hin as [Hin|Hin]; [discriminate|].
+      apply In_remove_all in Hin. apply (HL h' c Hin).
   Qed.
 
   (** the manifests of other names are not touched *)
   Lemma step_frame_mans t s e n : step_ok t s e -> t <> Some n -> mget n (apply_effect s e) = mget n s.
   Proof.
-    intros Hs Hn. destruct e as [d|d|h c|h c|h|n'|n' ms|n']; cbn in *; try reflexivity; unfold mget; cbn.
+    intros Hs Hn. destruct e as [d|d|h c|h c|h|n'|n' ms|n'|h c|h]; cbn in *; try reflexivity; unfold mget; cbn.
     - apply mget_aset_other. congruence.
     - apply mget_aset_other. destruct ms; [destruct Hs as [Hs _]|]; congruence.
     - apply mget_adel_other. congruence.
@@ -169,7 +199,7 @@ Section Inv.
 
   Lemma step_frame_listed t s e n m : step_ok t s e -> t <> Some n -> (listed (apply_effect s e) n m <-> listed s n m).
   Proof.
-    intros Hs Hn. unfold listed. destruct e as [d|d|h c|h c|h|n'|n' ms|n']; cbn in *; try tauto.
+    intros Hs Hn. unfold listed. destruct e as [d|d|h c|h c|h|n'|n' ms|n'|h c|h]; cbn in *; try tauto.
     - rewrite (In_aset name_eqb name_eqb_spec). split; [intros [[-> _]|[_ H]]; [congruence | exact H] | intros H; right; split; [congruence | exact H]].
     - assert (Ht : t = Some n') by (destruct ms; [destruct Hs as [Hs _]|]; exact Hs).
       rewrite (In_aset name_eqb name_eqb_spec). split; [intros [[-> _]|[_ H]]; [congruence | exact H] | intros H'; right; split; [congruence | exact H']].
@@ -179,12 +209,14 @@ Section Inv.
   (** a blob that some readable manifest uses is neither removed nor altered *)
   Lemma step_frame_blob t s e h : Inv s -> step_ok t s e -> referenced_hex s h = true -> bget h (apply_effect s e) = bget h s.
   Proof.
-    intros HI Hs Hr. destruct e as [d|d|h' c|h' c|h'|n'|n' ms|n']; cbn in *; try reflexivity; unfold bget; cbn.
+    intros HI Hs Hr. destruct e as [d|d|h' c|h' c|h'|n'|n' ms|n'|h' c|h']; cbn in *; try reflexivity; unfold bget; cbn.
     - subst c. destruct (N.eq_dec h h') as [->|Hn]; [|apply bget_aset_other, Hn].
       rewrite bget_aset_same. symmetry. apply (referenced_hex_present _ _ HI Hr).
     - subst c. destruct (N.eq_dec h h') as [->|Hn]; [|apply bget_aset_other, Hn].
       rewrite bget_aset_same. symmetry. apply (referenced_hex_present _ _ HI Hr).
     - apply bget_adel_other. intros ->. congruence.
+    - subst c. destruct (N.eq_dec h h') as [->|Hn]; [|apply bget_aset_other, Hn].
+      rewrite bget_aset_same. symmetry. apply (referenced_hex_present _ _ HI Hr).
   Qed.
 
   (** ** traces *)
